@@ -200,6 +200,7 @@ type caseStats struct {
 	WrapperElemsCompared, HookEventsCompared int
 	UnloggedAttempts                         int // attempts that ended in a hard error (no event expected)
 	UnidentifiedReads                        int
+	DuplicateDeliveries                      int // identifications skipped because the mailbox delivered some message twice
 	AbortKinds                               map[string]int
 	Inconsistent                             []string // harness-side inconsistencies => inconclusive
 }
@@ -218,7 +219,73 @@ func (v *verdict) add(key, desc, arch string, evNo int, detail any) {
 	v.Findings = append(v.Findings, finding{Key: key, Desc: desc, Arch: arch, EventNo: evNo, Detail: detail})
 }
 
+// buildGTSystem: no hand-built bodies; attempts are delimited by the H1 hooks alone. A loop head with a nil error
+// starts an attempt; a loop head with the abort error is followed by the abort hook (which ends the current
+// attempt) and then by the next attempt.
+func buildGTSystem(c *Case, recs []gtRec) (map[string]*archGT, []string) {
+	var bad []string
+	gts := map[string]*archGT{}
+	for i := range c.Archs {
+		a := &c.Archs[i]
+		gts[a.Key()] = &archGT{Key: a.Key(), Spec: a}
+	}
+	cur := map[string]*attempt{}
+	start := func(g *archGT) {
+		at := &attempt{Att: len(g.Attempts) + 1}
+		g.Attempts = append(g.Attempts, at)
+		cur[g.Key] = at
+	}
+	for _, r := range recs {
+		g := gts[r.A]
+		if g == nil {
+			continue
+		}
+		switch r.K {
+		case "res":
+			if at := cur[r.A]; at != nil {
+				at.Res = append(at.Res, r)
+			}
+		case "h":
+			switch r.Ev {
+			case "loop", "exit":
+				for _, p := range g.Attempts {
+					if p.Outcome != "" {
+						p.Due = true
+					}
+				}
+				if r.Ev == "loop" && r.Err == "" {
+					start(g)
+				}
+				if r.Ev == "exit" {
+					g.Exited = true
+				}
+			case "commit", "abort":
+				at := cur[r.A]
+				if at == nil || at.Outcome != "" {
+					bad = append(bad, fmt.Sprintf("%s hook %s without a fresh attempt", r.A, r.Ev))
+					continue
+				}
+				at.Outcome, at.HookElem, at.HasHook = r.Ev, r.Elems, true
+				if r.Ev == "abort" {
+					start(g)
+				}
+			}
+		}
+	}
+	for _, g := range gts {
+		for _, at := range g.Attempts {
+			if at.Outcome != "" {
+				g.Logged = append(g.Logged, at)
+			}
+		}
+	}
+	return gts, bad
+}
+
 func buildGT(c *Case, recs []gtRec) (map[string]*archGT, []string) {
+	if c.System != "" {
+		return buildGTSystem(c, recs)
+	}
 	var bad []string
 	gts := map[string]*archGT{}
 	for i := range c.Archs {
@@ -450,6 +517,25 @@ func evaluate(c *Case, recs []gtRec, events map[string][]tEvent, parseProblems [
 		}
 	}
 
+	// Events and attempts correspond by position. When an archetype's event count is wrong (an event missing,
+	// duplicated or spurious: reported once by oracle (i)), positions are only trusted up to the first event whose
+	// elements no longer match the attempt at the same position, so that one lost event is not reported again as
+	// hundreds of element/clock mismatches.
+	aligned := map[string]int{}
+	for k, g := range gts {
+		evs := events[k]
+		n := min(len(evs), len(g.Logged))
+		aligned[k] = n
+		if len(evs) == len(g.Logged) {
+			continue
+		}
+		for i := 0; i < n; i++ {
+			if !elemsEq(fromTElems(evs[i].Elems), expectedElems(c, g, g.Logged[i])) {
+				aligned[k] = i
+				break
+			}
+		}
+	}
 	// attempt -> event (by position among logged attempts)
 	eventOf := func(a string, att int) (*tEvent, int) {
 		g := gts[a]
@@ -458,7 +544,7 @@ func evaluate(c *Case, recs []gtRec, events map[string][]tEvent, parseProblems [
 		}
 		for i, at := range g.Logged {
 			if at.Att == att {
-				if i < len(events[a]) {
+				if i < aligned[a] {
 					return &events[a][i], i
 				}
 				return nil, -1
@@ -491,7 +577,7 @@ func evaluate(c *Case, recs []gtRec, events map[string][]tEvent, parseProblems [
 			}
 		}
 		for _, at := range g.Attempts {
-			if at.Outcome == "" {
+			if at.Outcome == "" && c.System == "" {
 				st.UnloggedAttempts++
 			}
 		}
@@ -504,7 +590,7 @@ func evaluate(c *Case, recs []gtRec, events map[string][]tEvent, parseProblems [
 			v.add("C18:trace:missing-event:"+first.Outcome, fmt.Sprintf("%s: attempt %d (%s, %s) ended and the archetype went on, but only %d events were logged for %d such attempts",
 				k, first.Att, first.Label, first.Outcome, len(evs), due), k, len(evs)+1, map[string]any{"attempt": first.Att, "label": first.Label, "ops": first.Ops})
 		}
-		n := min(len(evs), len(g.Logged))
+		n := aligned[k]
 		locals := newLocalState(g.Spec)
 		prevClock := map[string]int{}
 		for i := 0; i < n; i++ {
@@ -520,14 +606,9 @@ func evaluate(c *Case, recs []gtRec, events map[string][]tEvent, parseProblems [
 				st.AbortKinds[abortKind(at)]++
 			}
 			// (ii) element-wise equality with what the body performed
-			want := []cmpElem{{"read", "", ".pc", []string{}, canonText(fmt.Sprintf("%q", at.Label))}}
-			for _, op := range at.Ops {
-				if op.Err == "" {
-					want = append(want, cmpElem{op.T, op.Pre, op.Name, canonIdx(op.Idx), canonText(op.Val)})
-				}
-			}
+			want := expectedElems(c, g, at)
 			got := fromTElems(ev.Elems)
-			if shape := diffShape(got, want); !elemsEq(got, want) {
+			if shape := diffShape(got, want); c.System == "" && !elemsEq(got, want) {
 				v.add("C18:trace:elements-mismatch:"+shape, fmt.Sprintf("%s event %d (attempt %d, %s): logged elements differ from the operations the attempt performed", k, i+1, at.Att, at.Label),
 					k, i+1, map[string]any{"logged": strElems(got), "performed": strElems(want), "file": ev.File, "line": ev.Line})
 			}
@@ -550,7 +631,7 @@ func evaluate(c *Case, recs []gtRec, events map[string][]tEvent, parseProblems [
 				}
 			}
 			for _, e := range got {
-				if k := resKind(e.Name); e.Prefix == g.Spec.Name && k != "local" && k != "fault" {
+				if e.Prefix == g.Spec.Name && g.Spec.isWrapped(e.Name) {
 					gotRes = append(gotRes, e)
 				}
 			}
@@ -595,7 +676,7 @@ func evaluate(c *Case, recs []gtRec, events map[string][]tEvent, parseProblems [
 			}
 			// (vi) no causality cycle between two events
 			for ck, cn := range ev.Clock {
-				if ck == k || cn < 1 || cn > len(events[ck]) {
+				if ck == k || cn < 1 || cn > aligned[ck] {
 					continue
 				}
 				other := events[ck][cn-1]
@@ -608,8 +689,30 @@ func evaluate(c *Case, recs []gtRec, events map[string][]tEvent, parseProblems [
 			v.checkReads(c, gts, events, writes, eventOf, g, i, at, ev)
 		}
 	}
-	checkSharedHints(c, v, gts, recs, events)
+	checkSharedHints(c, v, gts, recs, events, aligned)
+	if c.System != "" {
+		v.checkSystemEdges(c, gts, events, aligned)
+	}
 	return v
+}
+
+// expectedElems: what the event of the attempt must contain — from the hand-built body's own log, or (system cases,
+// no such log) the elements that were in flight when the H1 hook saw the attempt end.
+func expectedElems(c *Case, g *archGT, at *attempt) []cmpElem {
+	if c.System != "" {
+		var hk []cmpElem
+		for _, e := range at.HookElem {
+			hk = append(hk, cmpElem{e.Tag, e.Prefix, e.Name, canonIdx(e.Idx), canonText(e.Val)})
+		}
+		return hk
+	}
+	want := []cmpElem{{"read", "", ".pc", []string{}, canonText(fmt.Sprintf("%q", at.Label))}}
+	for _, op := range at.Ops {
+		if op.Err == "" {
+			want = append(want, cmpElem{op.T, op.Pre, op.Name, canonIdx(op.Idx), canonText(op.Val)})
+		}
+	}
+	return want
 }
 
 func elemsEq(a, b []cmpElem) bool {
@@ -640,6 +743,11 @@ func abortKind(at *attempt) string {
 	}
 	if len(at.Ops) > 0 && at.Ops[len(at.Ops)-1].Name == ".pc" {
 		return "precommit"
+	}
+	for _, rc := range at.Res {
+		if rc.Err == "abort" {
+			return "res:" + rc.Res + ":" + rc.Call
+		}
 	}
 	return "await"
 }
@@ -749,31 +857,7 @@ func (v *verdict) checkReads(c *Case, gts map[string]*archGT, events map[string]
 			v.Stats.UnidentifiedReads++
 			return
 		}
-		if w.Arch == k {
-			v.Stats.SameArchEdges++
-		} else {
-			v.Stats.CrossEdges[kind]++
-		}
-		later := false
-		if ok, _ := dominates(w.Clk, wev.Clock); !ok && w.Arch != k {
-			later = true
-			v.Stats.LaterWitnessEdges++
-		}
-		ok, missing := dominates(ev.Clock, wev.Clock)
-		if ok {
-			return
-		}
-		shape := "reader-misses-write-time-knowledge"
-		if ev.Clock[w.Arch] < wev.Clock[w.Arch] {
-			shape = "reader-misses-writer-own-component"
-		} else if d, _ := dominates(ev.Clock, w.Clk); d && later {
-			shape = "reader-misses-writer-later-witness"
-		}
-		v.add("C18:vclock:"+shape+":"+kind,
-			fmt.Sprintf("%s event %d read (%s) a value written by %s event %d, but its clock lacks %v of the writer's logged clock", k, i+1, kind, w.Arch, wi+1, missing),
-			k, i+1, map[string]any{"reader_clock": ev.Clock, "writer_clock": wev.Clock, "writer_clock_at_write": w.Clk, "value": valText,
-				"writer": w.Arch, "writer_event": wi + 1, "writer_resource": w.Res, "missing": missing, "via_length": viaLength,
-				"writer_elements": strElems(fromTElems(wev.Elems)), "reader_elements": strElems(fromTElems(ev.Elems))})
+		v.checkEdge(kind, k, i, ev, w.Arch, wi, wev, w.Clk, w.Res, valText, viaLength)
 	}
 	for _, e := range ev.Elems {
 		if e.Tag != "read" || e.Prefix != g.Spec.Name {
@@ -806,20 +890,122 @@ func (v *verdict) checkReads(c *Case, gts map[string]*archGT, events map[string]
 			continue
 		}
 		box := map[string]string{"nlen": "net", "rlen": "rnet"}[rc.Res]
-		for _, m := range pendingMessages(g, box, at, rc.Seq, int(nv.N)) {
+		msgs, dup := pendingMessages(g, box, at, rc.Seq, int(nv.N))
+		if dup {
+			v.Stats.DuplicateDeliveries++
+		}
+		for _, m := range msgs {
 			v.Stats.LengthMsgsIdentified++
 			check(resKind(rc.Res), m, true)
 		}
 	}
 }
 
+// checkEdge: the reader's event must dominate the writer's event (statement, read literally).
+func (v *verdict) checkEdge(kind, k string, i int, ev *tEvent, wArch string, wi int, wev *tEvent, wClk map[string]int, wRes, valText string, viaLength bool) {
+	if wArch == k {
+		v.Stats.SameArchEdges++
+	} else {
+		v.Stats.CrossEdges[kind]++
+	}
+	later := false
+	if ok, _ := dominates(wClk, wev.Clock); !ok && wArch != k {
+		later = true
+		v.Stats.LaterWitnessEdges++
+	}
+	ok, missing := dominates(ev.Clock, wev.Clock)
+	if ok {
+		return
+	}
+	shape := "reader-misses-write-time-knowledge"
+	if ev.Clock[wArch] < wev.Clock[wArch] {
+		shape = "reader-misses-writer-own-component"
+	} else if d, _ := dominates(ev.Clock, wClk); d && later {
+		shape = "reader-misses-writer-later-witness"
+	}
+	v.add("C18:vclock:"+shape+":"+kind,
+		fmt.Sprintf("%s event %d read (%s) a value written by %s event %d, but its clock lacks %v of the writer's logged clock", k, i+1, kind, wArch, wi+1, missing),
+		k, i+1, map[string]any{"reader_clock": ev.Clock, "writer_clock": wev.Clock, "writer_clock_at_write": wClk, "value": valText,
+			"writer": wArch, "writer_event": wi + 1, "writer_resource": wRes, "missing": missing, "via_length": viaLength,
+			"writer_elements": strElems(fromTElems(wev.Elems)), "reader_elements": strElems(fromTElems(ev.Elems))})
+}
+
+// checkSystemEdges (system cases): values are not unique, so messages are identified positionally: the k-th committed
+// write of value x to mailbox d (when only one archetype ever writes x to d) is the k-th committed read of x from d.
+func (v *verdict) checkSystemEdges(c *Case, gts map[string]*archGT, events map[string][]tEvent, aligned map[string]int) {
+	type ref struct {
+		arch string
+		ev   int // index among logged attempts
+		clk  map[string]int
+		res  string
+	}
+	type key struct{ dest, val string }
+	wr := map[key][]ref{}
+	writers := map[key]map[string]bool{}
+	rd := map[key][]ref{}
+	selfKey := map[string]string{}
+	for _, a := range c.Archs {
+		selfKey[a.selfText()] = a.Key()
+	}
+	kind := map[string]string{"dqueue": "tcpmailbox", "locksvc": "relaxedmailbox"}[c.System]
+	for ak, g := range gts {
+		for li, at := range g.Logged {
+			if at.Outcome != "commit" {
+				continue
+			}
+			for _, rc := range at.Res {
+				if (rc.Res != "net" && rc.Res != "network") || rc.Err != "" || len(rc.Idx) != 1 {
+					continue
+				}
+				kk := key{canonText(rc.Idx[0]), canonText(rc.Val)}
+				switch rc.Call {
+				case "WriteValue":
+					wr[kk] = append(wr[kk], ref{ak, li, parseClockJSON(rc.Clk), rc.Res})
+					if writers[kk] == nil {
+						writers[kk] = map[string]bool{}
+					}
+					writers[kk][ak] = true
+				case "ReadValue":
+					rd[kk] = append(rd[kk], ref{ak, li, parseClockJSON(rc.Clk), rc.Res})
+				}
+			}
+		}
+	}
+	for kk, reads := range rd {
+		if len(writers[kk]) != 1 {
+			v.Stats.UnidentifiedReads += len(reads)
+			continue
+		}
+		ws := wr[kk]
+		for n, r := range reads {
+			if n >= len(ws) || r.ev >= aligned[r.arch] || ws[n].ev >= aligned[ws[n].arch] {
+				v.Stats.UnidentifiedReads++
+				continue
+			}
+			w := ws[n]
+			// the clock carried by the value names the writer's attempt; if it disagrees with the position, the
+			// mailbox duplicated or reordered something (another property's concern) and the pairing is unknown
+			if own, has := r.clk[w.arch]; has && own != w.ev+1 {
+				v.Stats.UnidentifiedReads++
+				v.Stats.DuplicateDeliveries++
+				continue
+			}
+			v.checkEdge(kind, r.arch, r.ev, &events[r.arch][r.ev], w.arch, w.ev, &events[w.arch][w.ev], w.clk, w.res, kk.val, false)
+		}
+	}
+}
+
 // pendingMessages lists (canonical text of) the first n messages of the mailbox that had not been consumed at time seq:
 // messages in first-delivery order, minus those read earlier by a committed attempt or earlier in this attempt.
-func pendingMessages(g *archGT, box string, cur *attempt, seq int64, n int) []string {
-	type info struct{ gone bool }
+func pendingMessages(g *archGT, box string, cur *attempt, seq int64, n int) (out []string, duplicates bool) {
+	type info struct {
+		gone      bool
+		committed int
+	}
 	var order []string
 	seen := map[string]*info{}
 	for _, at := range g.Attempts {
+		inAttempt := map[string]bool{}
 		for _, rc := range at.Res {
 			if rc.Res != box || rc.Call != "ReadValue" || rc.Err != "" {
 				continue
@@ -831,12 +1017,26 @@ func pendingMessages(g *archGT, box string, cur *attempt, seq int64, n int) []st
 				seen[m] = inf
 				order = append(order, m)
 			}
+			// the same message twice in one attempt, or consumed by two committed attempts: the mailbox delivered a
+			// duplicate (exactly-once delivery is another property's concern); positions can then not be trusted
+			if inAttempt[m] {
+				duplicates = true
+			}
+			inAttempt[m] = true
+			if at.Outcome == "commit" {
+				inf.committed++
+				if inf.committed > 1 {
+					duplicates = true
+				}
+			}
 			if rc.Seq < seq && (at == cur || at.Outcome == "commit") {
 				inf.gone = true
 			}
 		}
 	}
-	var out []string
+	if duplicates {
+		return nil, true
+	}
 	for _, m := range order {
 		if len(out) == n {
 			break
@@ -845,14 +1045,14 @@ func pendingMessages(g *archGT, box string, cur *attempt, seq int64, n int) []st
 			out = append(out, m)
 		}
 	}
-	return out
+	return out, false
 }
 
 // ---- previous-value hints of LocalShared variables ----------------------------------------------
 
 // The wrappers log every call under the variable's lock (Commit/Abort are logged before the lock is released), so
 // the resource-level records of one shared variable are a serial history of sections.
-func checkSharedHints(c *Case, v *verdict, gts map[string]*archGT, recs []gtRec, events map[string][]tEvent) {
+func checkSharedHints(c *Case, v *verdict, gts map[string]*archGT, recs []gtRec, events map[string][]tEvent, aligned map[string]int) {
 	type secKey struct {
 		a   string
 		att int
@@ -904,7 +1104,7 @@ func checkSharedHints(c *Case, v *verdict, gts map[string]*archGT, recs []gtRec,
 				continue
 			}
 			for i, at := range g.Logged {
-				if at.Att != sk.att || i >= len(events[sk.a]) {
+				if at.Att != sk.att || i >= aligned[sk.a] {
 					continue
 				}
 				ev := events[sk.a][i]
